@@ -6,6 +6,41 @@ import json, os, subprocess
 V = os.path.dirname(os.path.dirname(os.path.abspath(__file__)))
 
 CHECKS = {
+    "C07": dict(engine="E-proc/E-tty",
+                technique="runtime monitor: output-framing model over recorded stdout bytes and exit status (filter mode at process level; interactive endings in a private tmux server)",
+                text="Filter-mode stdout/exit status under --with-nth/--ansi/--read0/--print0/--print-query and interactive endings (Enter, expect keys, Escape, print-query, accept-or-print-query, accept-non-empty, --select-1/--exit-0) with selection histories are compared byte for byte with the documented framing.",
+                note="Valid UTF-8 input; the set of matching records comes from the reference evaluator applied to the displayed text.",
+                ref="4/C07"),
+    "C08": dict(engine="E-tty",
+                technique="runtime monitor: metamorphic/reference comparison of the live state at trace-defined quiescence (GET /) with a fresh `fzf --filter`, under queued batches and injected delays (failpoints)",
+                text="Interactive sessions driven through --listen with histories of query edits, sort toggles, exclusions, nth changes and reloads, paced or queued behind a busy UI loop, with failpoint delays; at quiescence (hook trace: request sequence numbers, reader start/fin) GET / must equal a fresh filter of the loaded input. The in-process twin (last published result answers the last request) runs in the C13 harness.",
+                note="Quiescence comes from the hook trace, never from sleeps; watchdog expiry is inconclusive. Query text is modelled for end-of-line editing only (C09 covers the editor).",
+                ref="4/C08"),
+    "C09": dict(engine="E-tty",
+                technique="runtime monitor: reference model (readline buffer with kill ring, list cursor, ordered selection map) compared with GET / after every consumed batch; stdout on accept",
+                text="Histories of editing, navigation and selection actions over lists of 0/1/3/200 items, window heights 3-40, three layouts, multi limits, --cycle, two info styles; query, cursor position, current item and ordered selection are compared after every action, and the accept output at the end.",
+                note="After a query edit the list cursor is re-anchored from the observed state (invariants only). toggle-up/down are generated only where the toggle succeeds.",
+                ref="4/C09"),
+    "C12": dict(engine="E-pkg/E-proc",
+                technique="runtime monitor: expansion handed to the real /bin/sh and bash, recorded argv compared with the original strings; canary file; fake-tmux re-launch path with an argv/environment recorder",
+                text="Templates over all quoting placeholder forms with hostile item/query texts are expanded by the real code and evaluated by /bin/sh and bash; argv must equal the expected words and nothing else may run. The --tmux re-launch path is driven with a fake tmux and a recorder as argv[0].",
+                note="No NUL bytes; {r}/{f} excluded by definition; fish not installed.",
+                ref="4/C12"),
+    "C13": dict(engine="E-pkg (race build)",
+                technique="Go race detector + sequential-oracle monitor over published mergers + deterministic enumeration of cancellation points (point handlers) + porcupine linearizability checking of recorded histories",
+                text="Real ChunkList/Matcher.Loop/Merger/caches with the harness as loader and coordinator under -race: every published merger equals the single-threaded filter of the snapshot of an issued request; cancellation injected at every chunk count for 2..12(40) chunks x 4 partition counts; Push/Snapshot/Clear and EventBox histories checked with porcupine; race reports in fzf code are violations.",
+                note="F24 (Snapshot --tail copy vs trimLength cache) is a listed known finding with a stack-pair classifier. Only executed access pairs are seen by the race detector.",
+                ref="4/C13"),
+    "C16": dict(engine="E-pkg/E-proc",
+                technique="runtime monitor: reply-grammar checker, side-effect monitor on the action channel and state handler, key-rule monitor over generated requests delivered with random write splits; process-level start-up rule",
+                text="Generated valid/malformed/garbage requests with and without a configured key are handed to the real handler over net.Pipe under five write plans; replies must be well-formed, actions reach the channel iff the request is a complete POST with the exact key and equal the --bind parse of the same text, GET/rejected requests have no side effects, no state without the key; non-local listeners without a key exit 2.",
+                note="Liveness under stalled connections and real TCP is exercised by the interactive checks (C14).",
+                ref="4/C16"),
+    "C17": dict(engine="E-pkg/E-proc",
+                technique="runtime monitor: totality (panic capture), structural override/layering equalities over parsed Options, bind round-trip against generated specifications; process-level exit status",
+                text="Argument vectors from the full option vocabulary x a value pool parse without panics; the binary exits 0/1 or 2 with a message; later occurrences override earlier ones structurally; file < env < argv including positional (--height/--tmux) precedence; generated --bind specifications round-trip with byte-identical arguments in every delimiter form.",
+                note="Expected expansion of an action name is its parse in isolation; punctuation keys alone.",
+                ref="4/C17"),
     "C01": dict(engine="E-lib/E-proc",
                 technique="runtime monitor: reference-model comparison (independent evaluator of the documented query grammar) over emitted sets of the real filter, library mode and process level",
                 text="Every generated (list, query, options) triple is run through the real fzf (fzf.Run in library mode; the built binary over stdin for a share) and the emitted multiset is compared with the lines accepted by a reference evaluator written from the documentation. Interactive match lists are compared with the same reference through the C08 driver.",
@@ -96,7 +131,8 @@ def main():
         "engines": [
             {"name": "E-algo", "path": "harness/algochk", "serves_properties": ["C02", "C03", "C05"], "kind_free_text": "in-process calls of exported algo.* matchers from worker processes, reference oracles"},
             {"name": "E-lib/E-proc", "path": "harness/filterchk, harness/fzfrun", "serves_properties": ["C01", "C04", "C05"], "kind_free_text": "real filter in library mode (fzf.ParseOptions + fzf.Run with channels) and as a child process built from the working tree"},
-            {"name": "E-pkg", "path": "harness/{fieldchk,ansichk,readchk,histchk,walkchk}", "serves_properties": ["C06", "C10", "C11", "C18", "C19"], "kind_free_text": "unexported units driven at their boundary through the verif export shims"},
+            {"name": "E-tty", "path": "harness/tty, harness/livechk", "serves_properties": ["C07", "C08", "C09"], "kind_free_text": "the built fzf binary inside a private tmux server driven through --listen / keys; GET / state, stdout, exit status; hook trace for logical-time quiescence and failpoints"},
+            {"name": "E-pkg", "path": "harness/{fieldchk,ansichk,readchk,histchk,walkchk,phchk,matchchk,httpchk,optchk}", "serves_properties": ["C06", "C10", "C11", "C12", "C13", "C16", "C17", "C18", "C19"], "kind_free_text": "unexported units driven at their boundary through the verif export shims"},
         ],
         "checks": checks,
         "not_applicable": na,
